@@ -305,6 +305,16 @@ func (s *state) exec(t *rapid.T, i int, o op) {
 		}
 		s.attempted[id] = true
 		s.trace = append(s.trace, fmt.Sprintf("%s [%s] -> %s", step, s.modesStr(), short(err)))
+		// a tombstone Put also returns nil when the tombstone merely exists already
+		// somewhere: it counts only when every shard physically holds it now; a Drop
+		// of a garbage-marked object is a no-op returning nil: it counts only when
+		// no shard holds the object any more
+		switch o.K {
+		case "tomb":
+			clean = clean && len(s.e.Holders(s.addr(o.ID))) == len(s.e.Sh)
+		case "drop":
+			clean = clean && len(s.e.Holders(s.addr(id))) == 0
+		}
 		if err == nil && clean && !(o.K == "delete" && o.Mark == "redundant") {
 			switch {
 			case o.K == "tomb":
